@@ -14,3 +14,22 @@ pub proof fn lemma_push_contains<K>(s: Seq<K>, k: K)
         assert(s.push(k)[s.len() as int] == k);
     }
 }
+
+pub proof fn lemma_concat_contains<K>(a: Seq<K>, b: Seq<K>)
+    ensures forall|x: K| #[trigger] (a + b).contains(x) <==> (a.contains(x) || b.contains(x)),
+{
+    assert forall|x: K| #[trigger] (a + b).contains(x) <==> (a.contains(x) || b.contains(x)) by {
+        if (a + b).contains(x) {
+            let i = choose|i: int| 0 <= i < (a + b).len() && (a + b)[i] == x;
+            if i < a.len() { assert(a[i] == x); } else { assert(b[i - a.len()] == x); }
+        }
+        if a.contains(x) {
+            let i = choose|i: int| 0 <= i < a.len() && a[i] == x;
+            assert((a + b)[i] == x);
+        }
+        if b.contains(x) {
+            let i = choose|i: int| 0 <= i < b.len() && b[i] == x;
+            assert((a + b)[a.len() + i] == x);
+        }
+    }
+}
